@@ -146,6 +146,18 @@ def runVerify (st : St) (ks : List Fr) (dlt : List Fr) (vf : String) (vq : List 
         | _, _ => false   -- an element without known logarithm (misaligned read): never accepted
       s!"ev={evs} L={fmtMsm st ks dF dPi dual.left} R={fmtMsm st ks dF dPi dual.right} acc={fmtBool acc}"
 
+/-- `vtrace V=<F|U|->;<q evals>;<P|U|-> Q=<queries> X=<challenges>`: the intermediate scalars of
+`multi_prepare` (`px1`, `qes`, `r` in fold order, `fe`, `v`), `none` when `v` is not reached. -/
+def runTrace (vf : String) (vq : List Fr) (vp : String) (qs : List (Query ComRef Fr Fr)) (xs : List Fr) : String :=
+  let x (i : Nat) := xs.getD i 0
+  let view : ProofView Fr := { hasF := vf ≠ "-", qEvals := vq, hasPi := vp ≠ "-" }
+  match multiPrepareTrace Fr.inv true qs view (x 0) (x 1) (x 2) (x 3) with
+  | none => "none"
+  | some t =>
+    let hexs (l : List Fr) := dots (l.map (fun e => toHex e.val))
+    let qes := if t.qEvalSets.isEmpty then "-" else "|".intercalate (t.qEvalSets.map hexs)
+    s!"px1={hexs t.powersX1} qes={qes} r={hexs t.rEvals} fe={toHex t.fEval.val} v={toHex t.v.val}"
+
 def step (st : St) (line : String) : St × String :=
   match words line with
   | ["gen"] => (st, mulGenStr 1)
@@ -163,6 +175,19 @@ def step (st : St) (line : String) : St × String :=
         | none => (st, "bad-op")
       | _, _ => (st, "bad-op")
     | _, _, _, _, _ => (st, "bad-op")
+  | ["vtrace", v, q, x] =>
+    match stripKey "V=" v, stripKey "Q=" q, stripKey "X=" x with
+    | some v, some q, some x =>
+      match v.splitOn ";", parseVerifierQueries? q, parseFrList? x with
+      | [vf, vq, vp], some qs, some xs =>
+        match parseFrList? vq with
+        | some vq =>
+          if (vf = "F" ∨ vf = "U" ∨ vf = "-") ∧ (vp = "P" ∨ vp = "U" ∨ vp = "-") then
+            (st, runTrace vf vq vp qs xs)
+          else (st, "bad-op")
+        | none => (st, "bad-op")
+      | _, _, _ => (st, "bad-op")
+    | _, _, _ => (st, "bad-op")
   | ["verify", k, t, v, q, x] =>
     match stripKey "K=" k, stripKey "T=" t, stripKey "V=" v, stripKey "Q=" q, stripKey "X=" x with
     | some k, some t, some v, some q, some x =>
